@@ -393,21 +393,6 @@ Section Compose.
     symmetry. apply (cursor_refines_itself (icmp c) (map dec_entry l) SOI ms).
   Qed.
 
-  (* ---------------- what the caller must respect: keys are byte strings ---------------- *)
-  Definition umove_wf (m : move bytes) : Prop := match m with MSeek k => wf_bytes k | _ => True end.
-  Definition range_wf (slice : option krange) : Prop :=
-    match slice with
-    | None => True
-    | Some (a, b) => (forall k, a = Some k -> wf_bytes k) /\ (forall k, b = Some k -> wf_bytes k)
-    end.
-
-  (* the pairs with Start <= key < Limit in the user order *)
-  Definition range_view (slice : option krange) (l : list (bytes * bytes)) : list (bytes * bytes) :=
-    match slice with
-    | None => l
-    | Some (a, b) => filter (fun kv => DBIter.in_range c a b (fst kv)) l
-    end.
-
   Lemma probe_enc_ok k s : wf_bytes k -> (s <= keyMaxSeq p)%N -> enc_ok (probe p k s).
   Proof. intros Wk Hs. exact (key_dec p pok seek_val crc decompress ufc k s Wk Hs). Qed.
 
@@ -475,7 +460,7 @@ Section Compose.
     iter_wf auxm auxt st -> (seq <= keyMaxSeq p)%N -> range_wf slice -> Forall umove_wf ms ->
     length (concat (child_lists auxm auxt st)) < fuel ->
     DBRUN fuel auxm auxt st seq slice ms =
-    Some (run_cursor (cmp c) (range_view slice (live_pairs c p seq (db_entries auxm auxt st))) ms).
+    Some (run_cursor (cmp c) (range_view c slice (live_pairs c p seq (db_entries auxm auxt st))) ms).
   Proof.
     intros W Hseq Hrw Hms Hfuel.
     set (lists := child_lists auxm auxt st).
